@@ -40,6 +40,34 @@ def setup(rng, state, mode="tun-router"):
 
 
 STATES = ["unknown", "pending_initiator", "pending_responder", "established_lingering", "established", "established_old", "closing"]
+ESTABLISHED = ("established_lingering", "established", "established_old", "closing")
+
+
+def closing_probe(s, state):
+    """state that a rejected datagram may have left behind inside the connection objects (replay window, counters) is not in the
+    dump; its consequence is: a few housekeeping ticks later payload must still flow both ways on the established connection"""
+    if state in ESTABLISHED:
+        s.tick(3)
+        s.add("P.2.%s" % nu.ipv4_packet(nu.node_ip(2), nu.node_ip(1), b"\x5a"), "A", "O.1")
+        s.add("P.1.%s" % nu.ipv4_packet(nu.node_ip(1), nu.node_ip(2), b"\xa5"), "A", "O.2")
+        s.add("X.9998")          # marker (a no-op): the two probes above must have been delivered
+
+
+def every_position_lines(rng, thorough, states):
+    """bit flips at every byte position of the captured handshake datagrams (positions beyond the datagram are no-ops on both
+    sides): the length and count fields that are read before anything is verified sit at fixed offsets"""
+    out = []
+    for state in states:
+        for k in (0, 1, 2):
+            for lo in range(0, 280, 70):
+                s = setup(rng, state)
+                s.add("S.1")
+                for pos in range(lo, lo + 70):
+                    for bit in sorted(set([0, rng.randrange(8)] + (list(range(8)) if thorough else []))):
+                        s.add("F.%d.1.%d.%d.%d" % (k, rng.choice([2, 2, OUTSIDER]), pos, bit), "S.1")
+                closing_probe(s, state)
+                out.append(s.line())
+    return out
 
 
 class C08(Property):
@@ -71,6 +99,7 @@ class C08(Property):
                             src = rng.choice([2, 2, OUTSIDER, 3])
                             s.add("W.1.%d.%s" % (src, bytes(d).hex() or "-"), "S.1")
                     s.add("O.1")
+                    closing_probe(s, state)
                     out.append(s.line())
                 # (b) mutations of genuine datagrams captured so far, from right and wrong parties
                 for _ in range(6 if thorough else 2):
@@ -90,18 +119,11 @@ class C08(Property):
                             s.add("J.%d.1.%d" % (k, OUTSIDER))     # verbatim, but from an unknown address
                         s.add("S.1")
                     s.add("O.1")
+                    closing_probe(s, state)
                     out.append(s.line())
-        # (d) every byte position of the captured handshake datagrams (positions beyond the datagram are no-ops on both
-        #     sides): the length and count fields that are read before anything is verified sit at fixed offsets
-        for state in ["unknown", "pending_initiator", "pending_responder", "established_lingering"] + (["established", "closing"] if thorough else []):
-            for k in (0, 1, 2):
-                for lo in range(0, 280, 70):
-                    s = setup(rng, state)
-                    s.add("S.1")
-                    for pos in range(lo, lo + 70):
-                        for bit in sorted(set([0, rng.randrange(8)] + (list(range(8)) if thorough else []))):
-                            s.add("F.%d.1.%d.%d.%d" % (k, rng.choice([2, 2, OUTSIDER]), pos, bit), "S.1")
-                    out.append(s.line())
+        # (d) every byte position of the captured handshake datagrams
+        out += every_position_lines(rng, thorough, ["unknown", "pending_initiator", "pending_responder", "established_lingering"]
+                                    + (["established", "closing"] if thorough else []))
         # (e) verbatim replays of genuine handshake datagrams of OTHER exchanges into pending handshakes, each twice:
         #     they verify (genuine signature) but belong to another key exchange; no dump-equality demand, only no panic
         #     and agreement with the model
@@ -132,6 +154,16 @@ class C08(Property):
                 s.tick(2)
                 s.add("A", "S.1", "S.2")
                 out.append(s.line())
+        # (a') well-formed but forged datagrams (>= 24 bytes, key id 0..3, counters far above anything used) from the peer's address
+        for state in ESTABLISHED:
+            s = setup(rng, state)
+            s.add("S.1")
+            for keyid in (0, 1, 2, 3):
+                for ctr in ("ffffffffffffff", "00ffffffffffff", "7fffffffffffff"):
+                    s.add("W.1.2.%02x%s%s" % (keyid, ctr, rb(rng, rng.choice([16, 17, 40])).hex()), "S.1")
+            s.add("O.1")
+            closing_probe(s, state)
+            out.append(s.line())
         # (c) big random datagrams
         for _ in range(40 if thorough else 8):
             s = setup(rng, rng.choice(STATES))
@@ -185,6 +217,11 @@ class C08(Property):
                     else:
                         return "datagram that cannot verify (%s) left state behind: %s -> %s" % (prev_op[:60], last_dump[:200], cur[:200])
                 last_dump = cur
+            if o == "X.9998":
+                w1, w2 = outs[i - 4], outs[i - 1]          # O.1 after P.2, O.2 after P.1
+                if w1 == "w-" or w2 == "w-":
+                    return ("a few ticks after the rejected datagrams payload no longer flows on the established connection "
+                            "(interface of node 1 got %s, of node 2 got %s): they left state behind in the connection" % (w1[:12], w2[:12]))
             if o[:1] in ("W", "F") and nu.emissions(r.replace("zc~", "")):
                 return "datagram that cannot verify (%s) was answered with %s" % (o[:60], r)
         return None
